@@ -45,6 +45,10 @@ def gen_scenario(rng, profile: dict) -> dict:
             ex["max_workers"] = rng.choice([1, 2, 3])
         else:
             limit = None
+    if rng.random() < profile.get("cache_p", 0.15):
+        # a (fresh, per-run) cache directory: every call of a scenario has its own key, so all look-ups miss and the run is
+        # a run of Sys all the same; the extra code path (serialize, listdir, dump, rename) is what this exercises
+        ex["cache_directory"] = "@WORK/cache"
     ncalls = rng.choice(profile.get("ncalls", [1, 2, 3, 3, 4, 5, 6]))
     calls = []
     gates = []
